@@ -490,6 +490,21 @@ def k2_k3_k6(prog, rep, only=None):
         okh = okh and hi.dominates(ms[0], upds[0]) and hi.dominates(upds[0], ms[1]) and hi.dominates(ms[1], upds[1]) if okh else False
         xors = [e for e in hi.all_elems() if e.is_assign and e.op == "^=" and show(norm(e.kid(0))) == "pad[i]" and show(norm(e.kid(1))) == "K[i]"]
         okh = okh and len(xors) == 2
+        # exactly the key's bytes are XORed in: each XOR is controlled by i < Klen of an index that starts at 0 and steps by one
+        for x in xors:
+            gs = [(op, show(L), show(R)) for cond, truth in hi.edge_conds(x) for op, L, R, _, _ in cond_atoms(cond, truth)]
+            iw = [e for e in hi.all_elems() if (e.is_assign or e.is_incdec) and show(norm(e.kid(0))) == "i"]
+            okx = ("<", "i", "Klen") in gs and all((e.is_assign and e.op == "=" and norm(e.kid(1)) == ("c", 0)) or (e.is_incdec and e.op in ("post++", "pre++")) for e in iw)
+            rep.check(okx, "K3-hmac", "HMAC-%s: the pad is XORed with exactly the Klen bytes of the key" % pref, x.where,
+                      "conditions on this XOR: %s (one byte more reads past the key and changes the pad whenever that byte is not zero)" % [g for g in gs if g[1] == "i"],
+                      function=hi.name, construct="pad-xor-range")
+        # each context is initialised before its pad is absorbed
+        for cx, up_ in zip(("&ctx->ictx", "&ctx->octx"), upds[:2]):
+            ini = [c for c in inits if show(norm(c.arg(0))) == cx]
+            rep.check(any(hi.dominates(c, up_) and not any(hi.dominates(c, f2) and hi.dominates(f2, up_) for f2 in hi.calls() if f2.callee and f2.callee.startswith(pref + "_Final") and show(norm(f2.arg(1))) == cx) for c in ini),
+                      "K3-hmac", "HMAC-%s: %s is initialised before its pad is absorbed" % (pref, cx), up_.where,
+                      "no %s_Init(%s) dominates this update (without a finalisation in between): the pad is absorbed into whatever the caller's object held" % (pref, cx),
+                      function=hi.name, construct="ctx-init:" + cx)
         rep.check(okh, "K3-hmac", "HMAC-%s: ipad 0x36 into the inner context, opad 0x5c into the outer, both XORed with the key" % pref, hi.loc, "fills %s" % fills, function=hi.name, construct="pads")
         thr = [(op, show(L), R) for b in hi.blocks.values() if b.cond is not None and b.term_cls == "IfStmt" for op, L, R, _, _ in cond_atoms(b.cond, True) if show(L) == "Klen"]
         kl = [e for e in hi.all_elems() if e.is_assign and show(norm(e.kid(0))) == "Klen"]
@@ -658,6 +673,7 @@ def sha256_rules(cfg, rep):
     k2_k3_k6(prog, rep, only=("SHA256",))
     k10_encap(prog, rep, only=("SHA256",))
     k7_regions(prog, rep, only=("alg/sha256.c",))
+    k11_vect(prog, rep, only=("alg/sha256.c",))
     ctx_typestate(prog, rep, ["alg/sha256.c"])
 
 
@@ -843,6 +859,55 @@ def ctx_typestate(prog, rep, units):
     return n
 
 
+VECT_ENDIAN = {"alg/sha256.c": "be32", "alg/sha1.c": "be32", "alg/md5.c": "le32"}
+
+
+def k11_vect(prog, rep, only=None):
+    """The word-vector helpers of the three hash units convert exactly len/4 words, word i at byte offset 4i, in the hash's byte
+    order (big-endian for SHA-1 and SHA-256, little-endian for MD5): the conversion call is controlled by i < len / 4 of an index that
+    starts at 0 and steps by one, the byte side is indexed 4i and the word side i, and the conversion routine is the unit's own."""
+    n = 0
+    for up, pre in VECT_ENDIAN.items():
+        if only is not None and up not in only:
+            continue
+        if up not in prog.units:
+            continue
+        u = prog.unit(up)
+        for f in u.funcs:
+            if f.file != up or not f.name.endswith("_vect") or len(f.params) != 3:
+                continue
+            enc = f.name.startswith(pre + "enc")
+            want = pre + ("enc" if enc else "dec")
+            LEN = ("v", f.params[2]["name"], f.params[2]["id"])
+            cs = [c for c in f.calls() if c.callee and c.callee != "__assert_fail"]
+            n += 1
+            ok = len(cs) == 1 and cs[0].callee == want
+            why = "calls: %s, expected one call of %s" % ([c.callee for c in cs], want)
+            if ok:
+                c = cs[0]
+                gs = [(op, L, R) for cond, truth in f.edge_conds(c) for op, L, R, _, _ in cond_atoms(cond, truth)]
+                idx = [L for op, L, R in gs if op == "<" and R in ((">>", LEN, ("c", 2)), ("/", LEN, ("c", 4)))]
+                iw = [e for e in f.all_elems() if idx and (e.is_assign or e.is_incdec) and norm(e.kid(0)) == idx[0]]
+                steady = bool(idx) and bool(iw) and all((e.is_assign and e.op == "=" and norm(e.kid(1)) == ("c", 0)) or (e.is_incdec and e.op in ("post++", "pre++")) for e in iw)
+                if not steady:
+                    ok, why = False, "the conversion is not controlled by i < len / 4 with i from 0 in steps of one: %s" % [(op, show(L), show(R)) for op, L, R in gs]
+                else:
+                    i = idx[0]
+                    D, S = ("v", f.params[0]["name"], f.params[0]["id"]), ("v", f.params[1]["name"], f.params[1]["id"])
+                    byteside = ("&", ("[]", D if enc else S, ("<<", i, ("c", 2))))
+                    alt = ("&", ("[]", D if enc else S, ("*", i, ("c", 4))))
+                    a0 = norm(c.arg(0))
+                    if enc:
+                        ok = a0 in (byteside, alt) and norm(c.arg(1)) == ("[]", S, i)
+                    else:
+                        st = [e for e in f.all_elems() if e.is_assign and e.op == "=" and e.kid(1) is not None and e.kid(1).strip() is c]
+                        ok = a0 in (byteside, alt) and len(st) == 1 and norm(st[0].kid(0)) == ("[]", D, i)
+                    why = "byte side %s, word side %s" % (show(a0), show(norm(c.arg(1))) if enc else [show(norm(e.kid(0))) for e in f.all_elems() if e.is_assign and e.kid(1) is not None and e.kid(1).strip() is c])
+            rep.check(ok, "K11-vect", "%s in %s: len/4 words, word i at byte 4i, %s-endian" % (f.name, up, "big" if pre == "be32" else "little"), f.loc, why,
+                      function=f.name, construct="vect")
+    return n
+
+
 def strip_ids(n):
     if isinstance(n, tuple):
         if n and n[0] == "v":
@@ -878,6 +943,8 @@ def run(tier):
         k7_regions(prog, rep)
         k8_bitcount(prog, rep)
         k10_encap(prog, rep)
+        if k11_vect(prog, rep) < 6:
+            rep.defer_broken("K11: fewer than 6 word-vector helpers found in the hash units")
         ctx_typestate(prog, rep, ["alg/sha256.c", "alg/sha1.c", "alg/md5.c"])
     n = len(configs)
     rep.require_min("K9-ctxstate", 12 * n)
